@@ -319,7 +319,7 @@ Proof.
                                (with_ring r (r_ready r) e (r_kick r) (r_call r)) q0) (q0 + 1) e) as [H1 H2].
       rewrite H1, H2. unfold update_reg, put_ring.
       destruct (r_kick _); [|auto]. destruct (owner_of _ _ _) as [[t i]|]; [|auto].
-      destruct (_ && _); [destruct (existsb _ _)|]; auto. }
+      destruct (GenCtl.ctl_reg_wanted _ _); [destruct (existsb _ _)|]; auto. }
     split.
     + destruct (hasd v PFB); cbn [d_acked set_misc]; [reflexivity|]. destruct (Hacked (set_misc s (d_owned s) v (d_acked_proto s) (d_rq_acked s) (d_rq_acked_proto s) (d_fe_avf s) (d_fe_apf s) (d_fe_maxq s)) (d_nq s) true) as [H1 _].
       cbn [d_nq set_misc]. rewrite H1. reflexivity.
@@ -347,7 +347,7 @@ Lemma set_call_then_signal s q f r0 s' :
   get_ring s q = Some r0 -> h_set_vring_call s q f = (s', DOk []) ->
   exists r', get_ring s' q = Some r' /\ r_call r' = Some f.
 Proof.
-  intros Hr. unfold h_set_vring_call. rewrite Hr.
+  intros Hr. unfold h_set_vring_call, GenCtl.ctl_needs_init. rewrite Hr.
   destruct (negb (r_ready _) && o_is_some (r_kick _)) eqn:E; intros H; inversion H; subst.
   - eexists. split.
     + rewrite get_ring_update_reg. eapply get_put_ring_same. eapply get_put_ring_same. exact Hr.
